@@ -157,3 +157,66 @@ package proj
 //@   mode real
 //@   ensures [same_as_proj4js] result == js_asinz(x)
 //@   modifies nothing
+
+//@ -- Projection closures against the proj4js formulas (transcribed by hand from
+//@ -- proj4js-2.3.12/lib/projections/*.js; math.* functions are uninterpreted, so
+//@ -- equality means: same expression tree over the same helper functions).
+
+//@ func Merc$1
+//@   prop C09
+//@   mode real
+//@   requires [captured] *this != nil
+//@   ensures [sphere] err == nil && (*this).sphere ==> x == (*this).X0 + (*this).A * *K0 * js_adjust_lon(lon - (*this).Long0) && y == (*this).Y0 + (*this).A * *K0 * log(tan(math.Pi / 4 + 0.5 * lat))
+//@   ensures [ellipsoid] err == nil && !(*this).sphere ==> x == (*this).X0 + (*this).A * *K0 * js_adjust_lon(lon - (*this).Long0) && y == (*this).Y0 - (*this).A * *K0 * log(js_tsfnz((*this).E, lat, sin(lat)))
+//@   ensures [poles_rejected] abs(abs(lat) - math.Pi / 2) <= 1.0e-10 ==> err != nil
+//@   modifies nothing
+
+//@ func Merc$2
+//@   prop C09
+//@   mode real
+//@   requires [captured] *this != nil
+//@   ensures [sphere] err == nil && (*this).sphere ==> lat == math.Pi / 2 - 2 * atan(exp(-(y@0 - (*this).Y0) / ((*this).A * *K0))) && lon == js_adjust_lon((*this).Long0 + (x@0 - (*this).X0) / ((*this).A * *K0))
+//@   ensures [ellipsoid_lon] err == nil && !(*this).sphere ==> lon == js_adjust_lon((*this).Long0 + (x@0 - (*this).X0) / ((*this).A * *K0))
+//@   modifies nothing
+
+//@ func phi2z
+//@   prop C09
+//@   mode real
+//@   modifies nothing
+//@   loop 1 `for i := 0; i <= 15; i++`
+//@     invariant 0 <= i && i <= 16
+//@     decreases 16 - i
+
+//@ spec lccLat(lat float64) float64 = abs(2 * abs(lat) - math.Pi) <= 1.0e-10 ? js_sign(lat) * 1.5707963265948965 : lat
+//@ spec lccRh1(a float64, f0 float64, ns float64, e float64, lat float64) float64 = abs(abs(lat) - math.Pi / 2) > 1.0e-10 ? a * f0 * pow(js_tsfnz(e, lat, sin(lat)), ns) : 0
+
+//@ func LCC$1
+//@   prop C09
+//@   mode real
+//@   requires [captured] *this != nil
+//@   ensures [formula_x] err == nil ==> x == (*this).K0 * (lccRh1((*this).A, *F0, *NS, *E, lccLat(lat@0)) * sin(*NS * js_adjust_lon(lon - (*this).Long0))) + (*this).X0
+//@   ensures [formula_y] err == nil ==> y == (*this).K0 * (*RH - lccRh1((*this).A, *F0, *NS, *E, lccLat(lat@0)) * cos(*NS * js_adjust_lon(lon - (*this).Long0))) + (*this).Y0
+//@   ensures [pole_on_wrong_side] abs(abs(lccLat(lat@0)) - math.Pi / 2) <= 1.0e-10 && lccLat(lat@0) * *NS <= 0 ==> err != nil
+//@   modifies nothing
+
+//@ func LCC$2
+//@   prop C09
+//@   mode real
+//@   requires [captured] *this != nil
+//@   ensures [lon] err == nil ==> lon == js_adjust_lon((((*NS > 0 ? sqrt(sq2((x@0 - (*this).X0) / (*this).K0, *RH - (y@0 - (*this).Y0) / (*this).K0)) : -sqrt(sq2((x@0 - (*this).X0) / (*this).K0, *RH - (y@0 - (*this).Y0) / (*this).K0))) != 0) ? atan2((*NS > 0 ? 1.0 : -1.0) * ((x@0 - (*this).X0) / (*this).K0), (*NS > 0 ? 1.0 : -1.0) * (*RH - (y@0 - (*this).Y0) / (*this).K0)) : 0.0) / *NS + (*this).Long0)
+//@   modifies nothing
+//@ spec sq2(a float64, b float64) float64 = a * a + b * b
+
+//@ func AEA$1
+//@   prop C09
+//@   mode real
+//@   requires [captured] *this != nil
+//@   ensures [formula] err == nil && x == ((*this).A * sqrt(*c - *ns0 * js_qsfnz(*e3, sin(lat))) / *ns0) * sin(*ns0 * js_adjust_lon(lon - (*this).Long0)) + (*this).X0 && y == *rh - ((*this).A * sqrt(*c - *ns0 * js_qsfnz(*e3, sin(lat))) / *ns0) * cos(*ns0 * js_adjust_lon(lon - (*this).Long0)) + (*this).Y0
+//@   modifies nothing
+
+//@ func EqdC$1
+//@   prop C09
+//@   mode real
+//@   requires [captured] *this != nil
+//@   ensures [formula] err == nil && x == (*this).X0 + ((*this).sphere ? (*this).A * (*g - lat) : (*this).A * (*g - js_mlfn(*e0, *e1, *e2, *e3, lat))) * sin(*ns * js_adjust_lon(lon - (*this).Long0)) && y == (*this).Y0 + *rh - ((*this).sphere ? (*this).A * (*g - lat) : (*this).A * (*g - js_mlfn(*e0, *e1, *e2, *e3, lat))) * cos(*ns * js_adjust_lon(lon - (*this).Long0))
+//@   modifies nothing
